@@ -153,6 +153,7 @@ func runC13(w *World, r *Report) {
 
 	shareRule(w, r, "C13.tool-panic-lands-on-its-own-task", "the recover handler of a tool-call goroutine writes the panic into the task it was started for (a parameter of the goroutine), never through the loop variable of the spawning loop: under go 1.18 semantics that variable is shared and has moved on — an index out of range inside the deferred function of an unrecovered goroutine kills the process", 6, "C17", "C17.parallel-protocol")
 	shareRule(w, r, "C13.tool-goroutines-capture-no-loop-variable", "no literal started as a goroutine in the tools node captures a loop variable", 1, "C17", "C17.loopvar")
+	shareRule(w, r, "C13.source-panic-lands-in-the-cell", "a panic of the source of a copied stream is recorded in the shared cell (inside the Once): every copy reads the same error item, not a zero chunk and a clean end on all copies but the one that ran the source", 1, "C08", "C08.copy-cell")
 
 	r.Rule("C13.percent-w", "fmt.Errorf with an error operand on the run path uses %w", 30)
 	// armed: the framework's own propagation path between a node's return and the run's return, i.e.
@@ -494,6 +495,26 @@ func runC13(w *World, r *Report) {
 	}
 	r.Check(storesNodePath >= 2, "C13.node-path", "wrapGraphNodeError sets nodePath", wrap.Pos(),
 		"both arms (fresh internalError, existing internalError) write the node path", "an arm of wrapGraphNodeError no longer records the node key")
+
+	// … at every level: apart from the interrupt pass-through, every return of wrapGraphNodeError is an error object
+	// built in this call — never the argument (or the *internalError found in it) handed back as it came
+	{
+		k := 0
+		instrs(wrap, func(in ssa.Instruction) {
+			ret, ok := in.(*ssa.Return)
+			if !ok || len(ret.Results) != 1 {
+				return
+			}
+			k++
+			v := through(ret.Results[0])
+			_, fresh := v.(*ssa.Alloc)
+			passThrough := v == ssa.Value(wrap.Params[1]) && hasGuard(ret.Block(), func(g guard) bool {
+				c, isC := g.cond.(*ssa.Call)
+				return isC && g.pol && staticCallee(c) != nil && staticCallee(c).Name() == "isInterruptError"
+			})
+			r.Check(fresh || passThrough, "C13.node-path", fmt.Sprintf("wrapGraphNodeError: return #%d extends the path", k), ret.Pos(), "a new internalError (or the interrupt error passed through)", "the error is handed back without this node's key ("+valText(v)+"): node keys are unique only within one graph, so a level whose key equals the key of the level below drops out of the reported path — nested chains name their nodes node_<index>: [node_1 node_1 node_1] is reported as [node_1], [agent step step] as [agent step]")
+		})
+	}
 
 	// cause-set: every internalError literal sets origError
 	r.Rule("C13.cause-set", "every &internalError{} literal stores the cause into origError", 4)
